@@ -175,4 +175,212 @@ theorem parseInt64_ok_iff (s : Str) (v : Int) :
           · intro h; injection h with h; subst h; exact ⟨h1, h2, by rw [h3], by omega, by omega⟩
           · rintro ⟨_, _, h3', _, _⟩; rw [h3', h3]
 
+/-! ### base 0 -/
+
+theorem evalDigits_ge (base : Nat) (hb : 1 ≤ base) (s : Str) : ∀ n v, evalDigits base n s = some v → n ≤ v := by
+  induction s with
+  | nil => intro n v h; simp only [evalDigits, Option.some.injEq] at h; omega
+  | cons c cs ih =>
+    intro n v h
+    unfold evalDigits at h
+    split at h
+    · exact ih n v h
+    · split at h
+      · cases h
+      · split at h
+        · cases h
+        · have := ih _ v h
+          have : n ≤ n * base := Nat.le_mul_of_pos_right n (by omega)
+          omega
+
+/-- the base-0 digit loop accepts exactly the digit strings (underscores skipped) whose value stays
+    within `maxVal`; stated for any base with the two cutoff facts (instantiated below) -/
+theorem parseUintLoopB_ok_iff (base maxVal : Nat) (hmax : maxVal < two64) (hb1 : 1 ≤ base) (hb2 : base ≤ 36)
+    (hc1 : ∀ n, n < cutoffB base → n * base < two64) (hc2 : ∀ n, cutoffB base ≤ n → two64 ≤ n * base)
+    (s : Str) : ∀ (n v : Nat), n ≤ maxVal →
+    (parseUintLoopB base maxVal n s = .ok v ↔ evalDigits base n s = some v ∧ v ≤ maxVal) := by
+  induction s with
+  | nil =>
+    intro n v hn
+    simp only [parseUintLoopB, evalDigits, Option.some.injEq]
+    constructor
+    · intro h; injection h with h; subst h; exact ⟨rfl, hn⟩
+    · rintro ⟨rfl, _⟩; rfl
+  | cons c cs ih =>
+    intro n v hn
+    unfold parseUintLoopB evalDigits
+    by_cases hu : c = 95
+    · simp only [hu, if_true]; exact ih n v hn
+    · simp only [hu, if_false]
+      cases hd : charDigit c with
+      | none => simp
+      | some d =>
+        simp only
+        by_cases hdb : d ≥ base
+        · simp [hdb]
+        · simp only [hdb, if_false]
+          by_cases hc : n ≥ cutoffB base
+          · simp only [hc, if_true]
+            constructor
+            · intro h; cases h
+            · rintro ⟨h1, h2⟩
+              have := evalDigits_ge base hb1 cs _ v h1
+              have := hc2 n hc
+              omega
+          · simp only [hc, if_false]
+            have hlt := hc1 n (by omega)
+            generalize n * base = nb at hlt ⊢
+            have hmod : nb % two64 = nb := Nat.mod_eq_of_lt hlt
+            rw [hmod]
+            by_cases hover : (nb + d) % two64 < nb ∨ (nb + d) % two64 > maxVal
+            · have hdec : (decide ((nb + d) % two64 < nb) || decide ((nb + d) % two64 > maxVal)) = true := by simpa using hover
+              simp only [hdec, if_true]
+              constructor
+              · intro h; cases h
+              · rintro ⟨h1, h2⟩
+                have := evalDigits_ge base hb1 cs _ v h1
+                unfold two64 at hover hmax hlt
+                omega
+            · have hdec : (decide ((nb + d) % two64 < nb) || decide ((nb + d) % two64 > maxVal)) = false := by simpa using hover
+              simp only [hdec, Bool.false_eq_true, if_false]
+              have hn1 : (nb + d) % two64 = nb + d := by unfold two64 at hover hmax hlt ⊢; omega
+              rw [hn1]; rw [hn1] at hover
+              exact ih (nb + d) v (by omega)
+
+theorem cutoff_facts (base : Nat) (h : base = 2 ∨ base = 8 ∨ base = 10 ∨ base = 16) :
+    (∀ n, n < cutoffB base → n * base < two64) ∧ (∀ n, cutoffB base ≤ n → two64 ≤ n * base) := by
+  have c2 : cutoffB 2 = 9223372036854775808 := by decide
+  have c8 : cutoffB 8 = 2305843009213693952 := by decide
+  have c10 : cutoffB 10 = 1844674407370955162 := by decide
+  have c16 : cutoffB 16 = 1152921504606846976 := by decide
+  rcases h with rfl | rfl | rfl | rfl
+  · rw [c2]; unfold two64; exact ⟨fun n h => by omega, fun n h => by omega⟩
+  · rw [c8]; unfold two64; exact ⟨fun n h => by omega, fun n h => by omega⟩
+  · rw [c10]; unfold two64; exact ⟨fun n h => by omega, fun n h => by omega⟩
+  · rw [c16]; unfold two64; exact ⟨fun n h => by omega, fun n h => by omega⟩
+
+theorem prefixBase_base (s : Str) : (prefixBase s).1 = 2 ∨ (prefixBase s).1 = 8 ∨ (prefixBase s).1 = 10 ∨ (prefixBase s).1 = 16 := by
+  unfold prefixBase
+  split
+  · split
+    · simp
+    · split
+      · simp
+      · split <;> simp
+  · simp
+  · simp
+
+/-- `ParseUint(s, 0, bits)` accepts exactly the Go integer literals whose number is below `2^bits`
+    and returns that number; in particular nothing with a sign -/
+theorem parseUint0_ok_iff (bits : Nat) (hb : bits ≤ 64) (s : Str) (v : Nat) :
+    parseUint0 bits s = .ok v ↔ numeral s = some v ∧ v < 2 ^ bits := by
+  unfold parseUint0 numeral
+  have hpow : 2 ^ bits ≤ two64 := by
+    unfold two64
+    calc 2 ^ bits ≤ 2 ^ 64 := Nat.pow_le_pow_right (by omega) hb
+      _ = 18446744073709551616 := by decide
+  have hpos : 0 < 2 ^ bits := Nat.two_pow_pos bits
+  by_cases hs : s = []
+  · simp [hs]
+  · simp only [hs, if_false]
+    have hbase := prefixBase_base s
+    generalize prefixBase s = p at hbase
+    obtain ⟨base, digits⟩ := p
+    simp only at hbase ⊢
+    obtain ⟨hc1, hc2⟩ := cutoff_facts base hbase
+    have key := parseUintLoopB_ok_iff base (2 ^ bits - 1) (by omega) (by omega) (by omega) hc1 hc2 digits 0
+    cases hl : parseUintLoopB base (2 ^ bits - 1) 0 digits with
+    | error e =>
+      simp only
+      constructor
+      · intro h; cases h
+      · rintro ⟨h1, h2⟩
+        split at h1
+        · cases h1
+        · have := (key v (by omega)).mpr ⟨h1, by omega⟩
+          rw [hl] at this; cases this
+    | ok n =>
+      have hn := (key n (by omega)).mp hl
+      simp only
+      by_cases hund : (digits.contains 95 && !underscoreOK s) = true
+      · rw [if_pos hund, if_pos hund]
+        constructor
+        · intro h; cases h
+        · rintro ⟨h, _⟩; cases h
+      · rw [if_neg hund, if_neg hund]
+        constructor
+        · intro h; injection h with h; subst h; exact ⟨hn.1, by omega⟩
+        · rintro ⟨h1, _⟩; rw [hn.1] at h1; injection h1 with h1; rw [h1]
+
+/-- `ParseInt(s, 0, 32)`: optional sign, then a Go integer literal; accepted exactly when the signed
+    number lies in `[-2^31, 2^31)`, and that number is returned -/
+theorem parseInt0_32_ok_iff (s : Str) (v : Int) :
+    parseInt0 32 s = .ok v ↔
+      ∃ n, numeral (splitSign s).2 = some n ∧
+        v = (if (splitSign s).1 then -(n : Int) else (n : Int)) ∧ -2147483648 ≤ v ∧ v < 2147483648 := by
+  unfold parseInt0
+  have h31 : (2 : Nat) ^ (32 - 1) = 2147483648 := by decide
+  have h32 : (2 : Nat) ^ 32 = 4294967296 := by decide
+  by_cases hs : s = []
+  · subst hs; simp [splitSign, numeral]
+  · simp only [hs, if_false, h31]
+    generalize splitSign s = p
+    obtain ⟨neg, ds⟩ := p
+    simp only
+    cases hpu : parseUint0 32 ds with
+    | error e =>
+      have hno : ∀ n, ¬ (numeral ds = some n ∧ n < 2 ^ 32) := by
+        intro n hn
+        have := (parseUint0_ok_iff 32 (by omega) ds n).mpr hn
+        rw [hpu] at this; cases this
+      have : ¬ ∃ n, numeral ds = some n ∧ v = (if neg = true then -(n : Int) else (n : Int)) ∧ -2147483648 ≤ v ∧ v < 2147483648 := by
+        rintro ⟨n, h1, h2, h3, h4⟩
+        apply hno n ⟨h1, ?_⟩
+        rw [h32]; cases neg <;> simp at h2 <;> omega
+      cases e with
+      | esyntax => exact ⟨fun h => (by cases h), fun h => absurd h this⟩
+      | erange => exact ⟨fun h => (by cases h), fun h => absurd h this⟩
+    | ok un =>
+      obtain ⟨h1, h2⟩ := (parseUint0_ok_iff 32 (by omega) ds un).mp hpu
+      simp only
+      cases neg with
+      | false =>
+        simp only [Bool.not_false, Bool.true_and, Bool.false_and, Bool.false_eq_true, if_false]
+        by_cases hge : un ≥ 2147483648
+        · simp only [hge, decide_true, if_true]
+          constructor
+          · intro h; cases h
+          · rintro ⟨n, h1', h2', _, h4'⟩
+            rw [h1] at h1'; injection h1' with h1'; omega
+        · simp only [hge, decide_false, Bool.false_eq_true, if_false]
+          constructor
+          · intro h; injection h with h; subst h; exact ⟨un, h1, rfl, by omega, by omega⟩
+          · rintro ⟨n, h1', h2', _, _⟩
+            rw [h1] at h1'; injection h1' with h1'; subst h1'; rw [h2']
+      | true =>
+        simp only [Bool.not_true, Bool.false_and, Bool.true_and, Bool.false_eq_true, if_false, if_true]
+        by_cases hgt : un > 2147483648
+        · simp only [hgt, decide_true, if_true]
+          constructor
+          · intro h; cases h
+          · rintro ⟨n, h1', h2', h3', _⟩
+            rw [h1] at h1'; injection h1' with h1'; omega
+        · simp only [hgt, decide_false, Bool.false_eq_true, if_false]
+          constructor
+          · intro h; injection h with h; subst h; exact ⟨un, h1, rfl, by omega, by omega⟩
+          · rintro ⟨n, h1', h2', _, _⟩
+            rw [h1] at h1'; injection h1' with h1'; subst h1'; rw [h2']
+
+/-- a string with a sign is not an unsigned literal -/
+theorem numeral_signed_none (c : UInt8) (r : Str) (hc : c = 45 ∨ c = 43) : numeral (c :: r) = none := by
+  unfold numeral
+  simp only [List.cons_ne_nil, if_false]
+  split
+  · rfl
+  · have hp : prefixBase (c :: r) = (10, c :: r) := by
+      rcases hc with rfl | rfl <;> (unfold prefixBase; rfl)
+    rw [hp]
+    simp only [evalDigits]
+    rcases hc with rfl | rfl <;> rfl
+
 end Restic.Proofs.Strconv
